@@ -87,6 +87,8 @@ class Ctx:
         self.samples = []
         self.suite_stats = {}
         self.notes = []
+        self.died = {}
+        self.case_by_id = {}
         self.traces = 0
         os.makedirs(WORK, exist_ok=True)
         os.makedirs(REPLAY, exist_ok=True)
@@ -246,20 +248,43 @@ class Ctx:
         with open(path, "w") as f:
             for c in cases:
                 f.write(json.dumps(c) + "\n")
-        with open(path, "rb") as f:
-            data = f.read()
-        rc, out, dt = sh([os.path.join(BUILD, "bclprobe"), suite], input=data, timeout=timeout,
-                         env=dict(os.environ, GOMAXPROCS=os.environ.get("GOMAXPROCS", "16")))
-        res = {}
-        for line in out.splitlines():
-            if line.startswith("{"):
-                try:
-                    r = json.loads(line)
-                    res[r["id"]] = r
-                except Exception:
-                    pass
+        res, missing, tail = self.run_probe([os.path.join(BUILD, "bclprobe"), suite], cases, timeout,
+                                            dict(os.environ, GOMAXPROCS=os.environ.get("GOMAXPROCS", "16")))
+        return res, missing, tail
+
+    def run_probe(self, argv, cases, timeout, env):
+        """runs the probe on the cases; a probe that exits because a call hung (4), ran away with memory (5) or died is
+        restarted on the cases after the culprit, which is left without a result (-> `missing`, `self.died`)"""
+        todo = list(cases)
+        res, tail, rc = {}, "", 0
+        for attempt in range(40):
+            if not todo:
+                break
+            data = "".join(json.dumps(c) + "\n" for c in todo).encode()
+            rc, out, dt = sh(argv, input=data, timeout=timeout, env=env)
+            got = 0
+            for line in out.splitlines():
+                if line.startswith("{"):
+                    try:
+                        r = json.loads(line)
+                        res[r["id"]] = r
+                        got += 1
+                    except Exception:
+                        pass
+            rest = [c for c in todo if c["id"] not in res]
+            if rc == 0 or not rest:
+                break
+            tail = out[-2000:]
+            if rc == 4:                 # a guarded call hung; its case has been reported with class hang
+                todo = rest
+                continue
+            # died (panic in a goroutine, runaway memory, killed): the first case without a result is the culprit
+            self.died[rest[0]["id"]] = "exit status %s: %s" % (rc, tail[-300:])
+            todo = rest[1:]
+        for c in cases:
+            self.case_by_id[c["id"]] = c
         missing = [c["id"] for c in cases if c["id"] not in res]
-        return res, missing, (rc, out[-2000:] if rc != 0 or missing else "")
+        return res, missing, (rc, tail if missing else "")
 
     def model(self, items, timeout=1800):
         """items: list of (suite, id, bytes) -> {id: result string}"""
